@@ -395,6 +395,10 @@ func evalInterop(r row, o obs, srv obs) {
 		return
 	}
 	switch {
+	case o.Stage == "connect" && r.Tok == "user" && firstUserPolicyExcludes(o.EpToks, r.Ckey):
+		// the client uses the first advertised username token policy; its key size limits are applied to the
+		// client's channel key although only the server's public key encrypts the password
+		vfgo.Violation(r, class, "username-login-fails-client-key-outside-token-policy-limits", fmt.Sprintf("Connect with %s/%s ckey=%d skey=%d tok=user (token policies %v): %s", r.Pol, r.Mode, r.Ckey, r.Cfg.Skey, o.EpToks, o.Err))
 	case o.Stage == "connect":
 		vfgo.Violation(r, class, "connect-fails", fmt.Sprintf("Connect with %s/%s ckey=%d skey=%d tok=%s: %s", r.Pol, r.Mode, r.Ckey, r.Cfg.Skey, r.Tok, o.Err))
 	case o.State != "Connected":
@@ -653,7 +657,7 @@ func doOpn(url string, r row, sk *keys.Pair) obs {
 	before := atomic.LoadInt64(&srvOpened)
 	var o obs
 	if supported(pair{r.Pol, r.Mode}) {
-		o = doOpnClient(url, r, sk)
+		o = doOpnClientPatient(url, r, sk)
 	} else {
 		o = doOpnRaw(url, r, sk)
 	}
@@ -722,11 +726,11 @@ func doOpnRaw(url string, r row, sk *keys.Pair) obs {
 	return o
 }
 
-func doOpnClient(url string, r row, sk *keys.Pair) obs {
+func doOpnClient(url string, r row, sk *keys.Pair, reqTimeout time.Duration) obs {
 	var o obs
 	ep := &ua.EndpointDescription{SecurityPolicyURI: ua.FormatSecurityPolicyURI(r.Pol), SecurityMode: modeOf(r.Mode), ServerCertificate: sk.Cert}
 	opts := []opcua.Option{opcua.SecurityFromEndpoint(ep, ua.UserTokenTypeAnonymous), opcua.AutoReconnect(false),
-		opcua.RequestTimeout(4 * time.Second), opcua.DialTimeout(4 * time.Second)}
+		opcua.RequestTimeout(reqTimeout), opcua.DialTimeout(4 * time.Second)}
 	if r.Pol != "None" {
 		ck := keys.Bits(r.Ckey)
 		opts = append(opts, opcua.PrivateKey(ck.Key), opcua.Certificate(ck.Cert))
@@ -736,7 +740,7 @@ func doOpnClient(url string, r row, sk *keys.Pair) obs {
 		o.Local, o.Err = true, err.Error()
 		return o
 	}
-	ctx, cancel := context.WithTimeout(context.Background(), 12*time.Second)
+	ctx, cancel := context.WithTimeout(context.Background(), 3*reqTimeout)
 	defer cancel()
 	err = c.Dial(ctx)
 	if err != nil {
@@ -753,6 +757,19 @@ func doOpnClient(url string, r row, sk *keys.Pair) obs {
 		o.Usable = true
 	}
 	c.Close(ctx)
+	return o
+}
+
+// doOpnClientPatient repeats an attempt whose channel opened but whose first request timed out (a loaded
+// machine): only a channel that is unusable three times in a row is reported as such.
+func doOpnClientPatient(url string, r row, sk *keys.Pair) obs {
+	var o obs
+	for try := 0; try < 3; try++ {
+		o = doOpnClient(url, r, sk, time.Duration(4+8*try)*time.Second)
+		if !o.Established || o.Usable {
+			return o
+		}
+	}
 	return o
 }
 
@@ -828,6 +845,25 @@ func doInterop(url string, r row, c cfgT, sk *keys.Pair, i int) obs {
 		}
 	}
 	return o
+}
+
+func keyOK(pol string, bits int) bool {
+	switch pol {
+	case "None":
+		return true
+	case "Basic128Rsa15", "Basic256":
+		return bits >= 1024 && bits <= 2048
+	}
+	return bits >= 2048 && bits <= 4096
+}
+
+func firstUserPolicyExcludes(toks []tokp, ckey int) bool {
+	for _, t := range toks {
+		if t.Type == "user" {
+			return !keyOK(t.Pol, ckey)
+		}
+	}
+	return false
 }
 
 func statusName(s ua.StatusCode) string {
